@@ -4,7 +4,8 @@
    dimension).  That g++ accepts exactly the well-kinded programs is OBSERVED by compiling the
    enumerated programs (props/c13.py); C++ template semantics is not formalised here. *)
 From Coq Require Import ZArith List Bool.
-From Covfie Require Import Stack StackGlue StackGlueProofs StackSound.
+From Covfie Require Import Stack StackGlue StackGlueProofs StackSound Refine_Asserts.
+From Covfie.gen Require Import Gen_Asserts.
 Import ListNotations.
 Local Open Scope Z_scope.
 
@@ -33,5 +34,10 @@ Example C13_example :
   kind_of ([LAffine; LLinear F32; LClamp; LShuffle [2; 0; 1]%nat; LStrided 3 U64], PArray 3 F64) =
   Some {| k_n := 3; k_tc := F32; k_m := 3; k_tv := F64; k_ref := false; k_scalar := false |}.
 Proof. vm_compute. reflexivity. Qed.
+
+(* the statements of kind in the source: the class-scope static_asserts of the layer and view templates, as they stand on
+   this run, are exactly the ten the model's layer_kind / prim_kind carry (a weakened, dropped or added one changes the list) *)
+Theorem C13_kind_asserts_are_the_sources : kind_asserts = model_kind_asserts /\ kind_assert_problems = O.
+Proof. exact kind_asserts_are_the_models. Qed.
 
 Print Assumptions C13_eval_kind_sound.
